@@ -116,6 +116,12 @@ def family_K(n):
     out.append(("K/nested_constexpr", HDR + "@constexpr\ndef g(x):\n    return x + %d\n@constexpr\ndef f(x):\n    return g(x) * 2\ndb.Setting = f(3)\n" % n))
     out.append(("K/in_loop", HDR + "@constexpr\ndef f(x):\n    return x * x + %d\nwhile True:\n    db.Setting = f(4)\n    yield_()\n" % n))
     out.append(("K/undefined_name", HDR + "@constexpr\ndef f(x):\n    return x + undefined_thing_%d\ndb.Setting = f(1)\n" % n))
+    # several constexpr calls in one program whose helpers behave differently (an implementation that starts them
+    # together, or gives up after the first, must still clean up all of them)
+    out.append(("K/first_prints_second_spins", HDR + "@constexpr\ndef a(x):\n    print(\"dbg\")\n    return x\n@constexpr\ndef b(x):\n    while True:\n        pass\ndb.Setting = a(%d)\nd1.Setting = b(2)\n" % n))
+    out.append(("K/first_raises_second_spins", HDR + "@constexpr\ndef a(x):\n    return 1 // (x - x)\n@constexpr\ndef b(x):\n    while True:\n        pass\ndb.Setting = a(%d)\nd1.Setting = b(2)\n" % n))
+    out.append(("K/first_ok_second_sleeps_third_spins", HDR + "@constexpr\ndef a(x):\n    return x + %d\n@constexpr\ndef b(x):\n    import time\n    time.sleep(5)\n    return x\n@constexpr\ndef c(x):\n    while True:\n        pass\ndb.Setting = a(1)\nd1.Setting = 1 // 0\nd2.Setting = b(2)\nd3.Setting = c(3)\n" % n))
+    out.append(("K/many_calls", HDR + "@constexpr\ndef f(x):\n    return x * x + %d\n" % n + "".join("d%d.Setting = f(%d)\n" % (i % 6, i) for i in range(7))))
     # the same constexpr function and call further down in the file (as after the user inserted lines above it):
     # identical evaluation script, different position of the call
     shift = "".join("# line %d of a comment block\n" % i for i in range(17))
@@ -176,6 +182,15 @@ def family_D(n):
         ("D/generic_devices_numeric", HDR + "buttons = Devices(1462769197, \"panel%d\")\ndb.Setting = buttons.Setting.Maximum\n" % n),
         ("D/generic_devices_numeric2", HDR + "things = Devices(%d)\nthings.On = 1\n" % (123456789 + n)),
         ("D/ref_id_device", HDR + "light = GrowLight(ref_id=%d)\nlight.Lock = True\n" % (0x123 + n)),
+        # the same names defined in one request and only referred to in another
+        ("D/defines_names", HDR + "total = %d\ncount = 2\ndef report():\n    db.Setting = total\ndef update(x):\n    return x + count\nwhile True:\n    report()\n    d0.Setting = update(3)\n    report()\n    yield_()\n" % n),
+        ("D/uses_undefined_names", HDR + "d1.Setting = update(%d)\nreport()\n" % n),
+        ("D/uses_skipped_def", HDR + "DEBUG = False\nif DEBUG:\n    def report():\n        db.Setting = %d\nreport()\n" % n),
+        ("D/uses_skipped_def2", HDR + "if False:\n    def update(x):\n        return x\n    total = 1\ndb.Setting = update(%d) + total\n" % n),
+        ("D/sp_assign", HDR + "sp = %d\npush(1)\ndb.Setting = sp\n" % n),
+        ("D/sp_augment", HDR + "sp += %d\nsp += 2\nx = pop()\ndb.Setting = x\n" % (n + 1)),
+        ("D/ra_assign", HDR + "ra = %d\ndb.Setting = ra\n" % (n + 3)),
+        ("D/sp_read", HDR + "db.Setting = sp\nsp = sp + %d\n" % (n + 1)),
         ("D/plain_then", HDR + "p = SolarPanel(d1)\np.Horizontal = %d\nq = SolarPanel(d2)\nq.Horizontal = p.Horizontal\n" % v),
         ("D/reassign_error", HDR + "p = SolarPanel(d1)\np = SolarPanel(d2)\np.Horizontal = %d\n" % v),
     ]
@@ -244,6 +259,8 @@ def family_E(n):
         ("E/continue_toplevel", HDR + "continue\n"),
         ("E/return_toplevel", HDR + "return %d\n" % n),
         ("E/recursion_direct", HDR + "def f(x):\n    return f(x - 1) + %d\ndb.Setting = f(d0.Setting)\n" % n),
+        ("E/recursion_with_helper", HDR + "def h(x):\n    return x + %d\ndef f(x):\n    return f(h(x)) + 1\ndb.Setting = f(d0.Setting)\n" % n),
+        ("E/recursion_helper_calls_back", HDR + "def h(x):\n    return x + %d\ndef g(x):\n    y = h(x)\n    return g(y)\ndef f(x):\n    return g(x) + h(x)\ndb.Setting = f(d0.Setting)\n" % n),
         ("E/recursion_mutual", HDR + "def f(x):\n    return g(x - 1)\ndef g(x):\n    return f(x) + %d\ndb.Setting = f(d0.Setting)\n" % n),
         ("E/undefined_name", HDR + "db.Setting = nothing_here + %d\n" % n),
         ("E/undefined_func", HDR + "db.Setting = nofunc(%d)\n" % n),
@@ -438,5 +455,9 @@ def family_J(n):
         ("J/surrounded_ws", "  " + request_line(ok_src) + "  "),
         ("J/deep_json", b64("[" * 3000 + "]" * 3000)),
         ("J/big_number_json", b64("{\"action\": \"compile\", \"code\": {\"\": \"x=1\"}, \"options\": {\"compact\": 1e999}}")),
+        ("J/action_lone_surrogate", b64("{\"action\": \"fmt\\ud83d%d\", \"code\": {\"\": \"x=1\"}}" % n)),
+        ("J/option_lone_surrogate", b64("{\"action\": \"compile\", \"code\": {\"\": \"x=1\"}, \"options\": {\"opt\\udc00%d\": true}}" % n)),
+        ("J/code_lone_surrogate", b64("{\"action\": \"compile\", \"code\": {\"\": \"from stationeers_pytrapic.symbols import *\\ndb.Setting = nothing\\ud800here%d\\n\"}, \"options\": {}}" % n)),
+        ("J/module_name_lone_surrogate", b64("{\"action\": \"compile\", \"code\": {\"\": \"from stationeers_pytrapic.symbols import *\\nfrom library import zz\\nzz.f()\\n\", \"l\\udfff%d\": \"x = = 1\"}, \"options\": {}}" % n)),
         ("J/dup_keys", b64("{\"action\": \"nope\", \"action\": \"compile\", \"code\": {\"\": \"" + "db.Setting = %d" % n + "\"}}")),
     ]
